@@ -180,8 +180,57 @@ CheckModel(t) ==
         ELSE IF "drift" \in cls THEN "drift:" \o first("drift")
         ELSE "ok"
 
+\* ------------------------------------------------------------------ "mlife" traces
+\* [k |-> "mlife", hist, pre, obs, fresh]  (or raised |-> message instead of obs)
+\*   hist  : calls made on a real clean per-channel MPS/NE16 model before the refinement (a behaviour of
+\*           ReassignLife: Reassign!LifeActions)
+\*   pre   : the real model just before optimize_prec_assignment: train, hard, gumbel, disable, temp,
+\*           onehot (theta_alpha is one-hot), hotcur (theta_alpha = arg-max of the current alpha)
+\*   obs   : "model" record of the refinement of THAT model (cb = arg-max cost of the fresh model)
+\*   fresh : "model" record of the refinement of a fresh model with the same alpha
+\* Property: obs and fresh agree on the chosen counts, on the assignment after and on the cost after
+\* (history independence), and obs satisfies every clause of a "model" trace.
+SameOutcome(o, f) ==
+    /\ Len(o.layers) = Len(f.layers)
+    /\ \A i \in DOMAIN o.layers :
+          /\ o.layers[i].name = f.layers[i].name
+          /\ o.layers[i].after = f.layers[i].after
+          /\ Len(o.layers[i].bestu) = Len(f.layers[i].bestu)
+          /\ \A p \in DOMAIN o.layers[i].bestu :
+                NearInt(o.layers[i].bestu[p]) /\ RoundU(o.layers[i].bestu[p]) = RoundU(f.layers[i].bestu[p])
+    /\ Abs(o.ca - f.ca) <= Slack(f.ca)
+
+CheckMLife(t) ==
+    IF \E i \in DOMAIN t.hist : t.hist[i] \notin LifeActions THEN "trace: unknown life action"
+    ELSE
+    LET pred == LifeRun(LifeInit, t.hist, 1)
+        hs   == "after the calls " \o ToString(t.hist)
+    IN  IF Has(t, "raised")
+        THEN "C20.history: optimize_prec_assignment fails (" \o t.raised \o ") " \o hs
+                 \o " although it succeeds on a fresh model with the same alpha"
+        ELSE IF ~SameOutcome(t.obs, t.fresh)
+        THEN "C20.history: the refinement " \o hs \o " differs from the refinement of a fresh model with the same alpha: chosen x10^6 "
+                 \o ToString([i \in DOMAIN t.obs.layers |-> t.obs.layers[i].bestu]) \o " vs "
+                 \o ToString([i \in DOMAIN t.fresh.layers |-> t.fresh.layers[i].bestu]) \o ", counts after "
+                 \o ToString([i \in DOMAIN t.obs.layers |-> Counts(t.obs.layers[i].after, Len(t.obs.layers[i].bits))]) \o " vs "
+                 \o ToString([i \in DOMAIN t.fresh.layers |-> Counts(t.fresh.layers[i].after, Len(t.fresh.layers[i].bits))])
+                 \o ", cost after " \o ToString(t.obs.ca) \o " vs " \o ToString(t.fresh.ca)
+        ELSE
+        LET base  == CheckModel(t.obs)
+            flags == /\ t.pre.train = pred.train /\ t.pre.hard = pred.hard /\ t.pre.gumbel = pred.gumbel
+                     /\ t.pre.disable = pred.disable /\ t.pre.temp = pred.temp
+            theta == /\ (pred.th.kind \in {"soft", "gsoft"} => ~t.pre.onehot)
+                     /\ (pred.th.kind \in {"hot", "ghot"} => t.pre.onehot)
+                     /\ (SeesArgmax(pred) => t.pre.hotcur)
+        IN  IF base # "ok" THEN base
+            ELSE IF ~flags \/ ~theta
+            THEN "drift:C20 life cycle: the model before the refinement " \o ToString(t.pre)
+                     \o " is not in the state the specification predicts " \o ToString(pred) \o " " \o hs
+            ELSE "ok"
+
 Check(t) ==
     IF ~Has(t, "k") THEN "trace: missing kind"
+    ELSE IF t.k = "mlife" THEN CheckMLife(t)
     ELSE IF t.k = "fn" THEN CheckFn(t)
     ELSE IF t.k = "model" THEN CheckModel(t)
     ELSE "trace: unknown kind"
